@@ -196,6 +196,21 @@ def run(ctx):
         rnd = sorted({x.get('callee') for x in f.calls() if x.get('callee') in ('psf_lrint', 'psf_lrintf')})
         ctx.ob('ROUND-ONLY', f.name, not casts, f.loc(casts[0]) if casts else f.loc(f.body), 'rounding via %s; truncating casts: %s' % (rnd or 'n/a', [f.s(n)[:40] for n in casts]), None)
     _norm_slot_and_round_type(ctx)
+    # ---- the scale of SFC_SET_SCALE_FLOAT_INT_READ is 0x7FFF / float_max (2^31 / float_max): float_max must be positive when it is used
+    ctx.rule('SCALE-NONZERO', 'the measured maximum stored into psf->float_max by SFC_SET_SCALE_FLOAT_INT_READ is replaced by a positive constant when it is not positive (a silent file), '
+             'before the command returns: the readers divide by it', floor=1)
+    cf = prog.fn('sf_command', 'sndfile.c')
+    meas = [a for lv, a, r in assigned_lvalues(cf) if lv == 'psf->float_max' and r is not None and any(c.get('callee') == 'psf_calc_signal_max' for c in cf.calls(root=r))]
+    ctx.require(meas, 'sf_command does not store a measured maximum into psf->float_max')
+    for k, a in enumerate(meas):
+        fix = []
+        for n in cf.walk():
+            if n['k'] == 'IfStmt' and cf.s(n['cond']).replace(' ', '') in ('(psf->float_max<=0.0)', '(psf->float_max<=0)', '(psf->float_max==0.0)', '(psf->float_max<=0.000000)'):
+                pos = [x for lv, x, r in assigned_lvalues(cf, n['then']) if lv == 'psf->float_max' and r is not None and (cf.unwrap(r).get('fv') or cf.unwrap(r).get('v') or 0) > 0]
+                if pos and cf.cfg.dominates(a, n):
+                    fix.append(n)
+        ctx.ob('SCALE-NONZERO', 'sf_command#%d' % (k + 1), bool(fix), cf.loc(a), 'measured maximum %s' % ('is clamped to a positive value before use' if fix else
+               'can be 0 (silent file): the readers compute 0x7FFF / 0 = inf, inf * 0 = NaN, every sample becomes INT_MIN'), None)
 
 
 def _norm_slot_and_round_type(ctx):
